@@ -59,7 +59,7 @@ func (e *eventFile) ev(name string, f rt.M) {
 	e.mu.Unlock()
 }
 
-const faultDeadline = 20 * time.Second
+const faultDeadline = 60 * time.Second
 
 func faultFeed(sc faultScenario) []edge.Message {
 	g := groupClasses()[3]
